@@ -365,3 +365,33 @@ func ZZ_C14_TransferToChain_Fields() {
 		vrt.Assert("c14.ttc.sender"+zzSenderClass(a.Sender, b.Sender), !same || common.HexToAddress(a.Sender) == common.HexToAddress(b.Sender))
 	}
 }
+
+// ZZ_C14_LargeAmounts: amounts far above 2^64 (where a truncated or fixed-width encoding of the amount would
+// collide); each amount is taken from a window in which its byte length is fixed, so big.Int.Bytes() does not fork.
+func ZZ_C14_LargeAmounts() {
+	chain := ChainID("ethereum")
+	windows := [][2]uint{{56, 64}, {64, 72}, {120, 128}, {248, 255}}
+	pick := func(name string) sdk.Int {
+		w := windows[vrt.Choose(name+".window", len(windows))]
+		return sdk.NewIntFromBigInt(vrt.IntRange(name, new(big.Int).Lsh(big.NewInt(1), w[0]), new(big.Int).Sub(new(big.Int).Lsh(big.NewInt(1), w[1]), big.NewInt(1))))
+	}
+	amtA, amtB := pick("a.amount"), pick("b.amount")
+	tok := common.BytesToAddress(vrt.Bytes("token", 20)).Hex()
+	rcv := sdk.AccAddress(vrt.Bytes("rcv", 20)).String()
+	if vrt.Choose("type", 2) == 0 {
+		a := &SendToHubEvent{EventNonce: 1, ExternalCoinId: tok, Amount: amtA, Sender: "0x00000000000000000000000000000000000000aa", CosmosReceiver: rcv, ExternalHeight: 5, TxHash: "h"}
+		b := *a
+		b.Amount = amtB
+		vrt.Assume(a.Validate(chain) == nil && b.Validate(chain) == nil)
+		vrt.Reach("c14.large")
+		vrt.Assert("c14.sth.amount", !bytes.Equal(a.Hash(), b.Hash()) || amtA.Equal(amtB))
+		return
+	}
+	a := &TransferToChainEvent{EventNonce: 1, ExternalCoinId: tok, Amount: amtA, Fee: sdk.ZeroInt(), Sender: "0x00000000000000000000000000000000000000aa",
+		ReceiverChainId: "bsc", ExternalReceiver: "0x00000000000000000000000000000000000000bb", ExternalHeight: 5, TxHash: "h"}
+	b := *a
+	b.Amount = amtB
+	vrt.Assume(a.Validate(chain) == nil && b.Validate(chain) == nil)
+	vrt.Reach("c14.large")
+	vrt.Assert("c14.ttc.amount", !bytes.Equal(a.Hash(), b.Hash()) || amtA.Equal(amtB))
+}
